@@ -963,6 +963,28 @@ class GDict:
             res.append((d.and_(h, p ^ 1), default))
         return E.mk(res)
 
+    def setdefault(self, k, default=None):
+        """dict.setdefault: the stored value where the key is present; otherwise `default` is stored (under the current guard)
+        and returned - the very same object, so that d.setdefault(k, []).append(x) fills the stored list"""
+        d = E.dag
+        g = E.g()
+        res = []
+        for h, kv in _key_inst(k):
+            ent = self.m.get(kv)
+            p = ent[0] if ent else FALSE
+            if p != FALSE:
+                res.append((d.and_(h, p), ent[1]))
+            miss = d.and_(h, p ^ 1)
+            w = d.and_(miss, g)
+            if w != FALSE:
+                if ent:
+                    ent[1] = E.merge(w, default, ent[1])
+                    ent[0] = d.or_(p, w)
+                else:
+                    self.m[kv] = [w, default]
+                res.append((miss, default))
+        return E.mk(res)
+
     def setitem(self, k, v):
         d = E.dag
         g = E.g()
